@@ -35,7 +35,7 @@ PROPS = {
                 corr=ALL_TREE_TAGS | {"ENC"}, oracle=ALL_TREE_TAGS - {"PFX"}, theorem="Properties/C09.v", opts=["-buf"], side="C09"),
     "C10": dict(title="inner node tables", families=[("node4", 3, 12, 0, 0), ("node16", 3, 12, 0, 0), ("nodeseq", 8, 80, 0, 0)],
                 corr=NODE_TAGS, oracle=set(), theorem="Properties/C10.v", need386=True, special="node", corpus=["D11"]),
-    "C11": dict(title="index well-formed", families=[("tree:shape", 16, 160, 90, 18), ("closure:shape", 6, 6, 16, 0, 20, 12000)],
+    "C11": dict(title="index well-formed", families=[("tree:shape", 16, 160, 90, 18), ("huge", 1, 2, 1, 2), ("closure:shape", 6, 6, 16, 0, 20, 12000)],
                 corr={"DUMP"}, oracle={"SIZE"}, theorem="Properties/C11.v", special="shape", corpus=["D10"]),
     # nodeseq: the bare node handle with NRAW lines = the raw node of Model/Pool.v (every slot) against the real node
     "C12": dict(title="recycled nodes", families=[("multi", 12, 120, 110, 4), ("nodeseq", 3, 30, 0, 0)],
